@@ -854,6 +854,12 @@ func (x *Exec) mapLen(st *State, t types.Type, m Term) Term {
 	l := x.heapGet(st, ln, ArrSort(SInt, SInt))
 	r := x.define("maplen", Ite(Eq(m, IntLit(0)), IntLit(0), Select(l, m)))
 	x.assumeLocal(And(Ge(r, IntLit(0)), Le(r, IntLitStr(memLimit))))
+	// len(m) is the number of keys
+	if x.quiet == 0 && x.quantDepth == 0 {
+		dom, _, _, ks, _ := mapNames(t)
+		d := x.heapGet(st, dom, ArrSort(SInt, ArrSort(ks, SBool)))
+		x.assume(Implies(Not(Eq(m, IntLit(0))), Eq(r, x.card(Select(d, m)))))
+	}
 	return r
 }
 
